@@ -183,7 +183,7 @@ class C03(Check):
             'included) x both chunk-size conventions. Sub-space "meta": all sequences of <=3 (quick) / <=4 (thorough) '
             'metadata/log blocks over 7 kinds (dyld modules, trace codes, processes, kexts, images, log events, unknown tag) '
             'with occurrence-numbered payloads, the string index placed at every position, x thread maps (4) x gap bytes after '
-            'MORE_EVENTS (4). Sub-space "blocks": every filler length 362..531, 3946..4115, 8042..8211 before the stackshot sentinel, before the thread-map tag and after MORE_EVENTS (a tag at / across every 512/4096/8192-byte block boundary). Sub-space "tagged": records whose first bytes are container tags / the v3 magic, in every position and chunking. Sub-space "long": 64/513/1500 records in 1..3 chunks. Sub-space "reuse": ONE parser object parses '
+            'MORE_EVENTS (4). Sub-space "blocks": every filler length 362..531, 3946..4115, 8042..8211 before the stackshot sentinel, before the thread-map tag and after MORE_EVENTS (a tag at / across every 512/4096/8192-byte block boundary). Sub-space "tagged": records whose first bytes are container tags / the v3 magic, in every position and chunking. Sub-space "cli": the processes / kexts / images commands print the sections as JSON. Sub-space "long": 64/513/1500 records in 1..3 chunks. Sub-space "reuse": ONE parser object parses '
             'two dumps in turn (6 x 6 block sequences x 3 map pairs); the second parse must leave the second dump\'s metadata only. Oracle: events all/in order/== independent decode/before any log; tables after the thread-map '
             'chunk and after logs; list-valued sections concatenated in file order; scalar sections equal one of their '
             'payloads; logs in order with strings resolved. non-trivial = >=2 chunks or >=2 blocks. states = distinct '
@@ -208,6 +208,7 @@ class C03(Check):
         out.append(('reuse',))
         out += [('blocks', which) for which in ('filler1', 'filler2', 'gap')]
         out.append(('tagged',))
+        out.append(('cli',))
         return out
 
     def run_shard(self, desc, acc):
@@ -265,6 +266,22 @@ class C03(Check):
                     acc.case(nontrivial=True, transitions=4, state=h64(('tagged', seq, comp)), outcome=h64(('tagged', seq)))
                     for sig, detail in bad:
                         acc.violation(sig + ':record-looks-like-a-tag', {'kind': 'tagged', 'seq': list(seq), 'comp': list(comp)}, detail)
+        elif desc[0] == 'cli':
+            import json
+            from mc.cli import run_cli
+            for kseq in [('procs',), ('kexts', 'kexts'), ('images',), ('dyld', 'kexts', 'procs', 'images'), ()]:
+                blob, threads, recs, ks, cpu = make(**dict(DEFAULT, kseq=kseq))
+                m = expected_meta(ks)
+                for cmd, exp in (('processes', m['procs'][-1:] or [{}]), ('kexts', [{'Binaries': m['kexts']}]), ('images', m['images'][-1:] or [{}])):
+                    code, lines, exc = run_cli(blob, [cmd])
+                    acc.case(nontrivial=bool(kseq), transitions=1, state=h64(('cli', cmd, kseq)))
+                    try:
+                        got = json.loads('\n'.join(lines))
+                    except Exception:
+                        got = None
+                    if code != 0 or exc is not None or got not in exp:
+                        acc.violation('v3-cli-metadata-command:' + cmd, {'kind': 'cli', 'kseq': list(kseq)},
+                                      {'exit': code, 'error': repr(exc)[:200], 'got': repr(got)[:200], 'expected': repr(exp)[:200]})
         elif desc[0] == 'reuse':
             # ONE KdBufParser object parses two different dumps one after the other: after the second parse its metadata and
             # tables are those of the second dump only
@@ -308,7 +325,7 @@ class C03(Check):
             acc.sample({k: (list(v) if isinstance(v, tuple) else v) for k, v in params.items()})
 
     def replay(self, case):
-        if case.get('kind') in ('long', 'reuse', 'blocks', 'tagged'):
+        if case.get('kind') in ('long', 'reuse', 'blocks', 'tagged', 'cli'):
             from mc.run import Acc
             acc = Acc()
             self.run_shard((case['kind'], case.get('which')) if case['kind'] == 'blocks' else (case['kind'],), acc)
